@@ -49,7 +49,8 @@ K_SEQ = {
              ('a, # c7\nb', 'Tuple'), ('(i,\n j)', 'Tuple'),
              # (7..9) multi-line code indented deeper than where it goes, with a continuation line that is shallower than its neighbours
              ('[\n        x,\n        (y,\n  z),\n]', 'List'), ('(\n      p,\n      f(q,\n r), s\n)', 'Tuple'),
-             ('[\n            m,\n            """t\n u""",\n     n]', 'List')],
+             ('[\n            m,\n            """t\n u""",\n     n]', 'List'),
+             ('*s, t', 'Tuple'), ('a.b, c[d]', 'Tuple')],  # (10, 11) elements that only some contexts take (no star in a del target)
     'stmt': [('x = 1\ny = 2', 'stmts'), ('pass', 'stmts'), ('', 'stmts'), ('# own\nz = 3  # tr\n', 'stmts'),
              ('if a: b\nc', 'stmts'), ("'''d'''\ne", 'stmts')],
     'pattern': [('a, b', 'pattern'), ('[x]', 'pattern'), ('[]', 'pattern')],
